@@ -17,7 +17,7 @@ def main():
     keys = {}
     for f in res['failures']:
         keys.setdefault(f['key'], []).append(f)
-    for k, fs in list(keys.items())[:12]:
+    for k, fs in list(keys.items())[:int(os.environ.get("VERIF_SHOW", "12"))]:
         print(len(fs), k, '::', fs[0]['what'][:400])
 
 
